@@ -72,6 +72,7 @@ type w1Config struct {
 	spareScenario bool // the only fault is one replica being down for a while
 	spareReplica  int
 	gracefulStops bool // agents are also stopped the way the agent's main() does on SIGINT and restarted on their disk cache (not a fault)
+	rawSender     bool // two raw senders (w1_raw_test.go) take part: hand-built payloads with unusual host arguments and rows the aggregator rejects
 	handlerPause  int  // 0: handlers run through; 1: handlers of selected historic requests pause between two rows (w1_pause_test.go); 2: same, and every insert takes a few milliseconds
 	chLatency     bool // every ClickHouse insert takes 1-50 ms of fake time (not a fault)
 }
@@ -94,6 +95,7 @@ func (rep *w1Replica) khAddr() string { return fmt.Sprintf("ch-r%d-g%d:8123", re
 type w1Inst struct {
 	agent int
 	gen   int
+	raw   bool // a raw sender (w1_raw_test.go): no agent object behind it
 	ag    *agent.Agent
 	dir   string
 	host  string
@@ -141,7 +143,9 @@ type w1World struct {
 	pauseArmed atomic.Int32
 
 	lastWork []uint32 // per agent: last second the workload was applied for
-	graceful int      // graceful agent stops performed so far
+	raws     []*w1Inst
+	lastRaw  uint32
+	graceful int // graceful agent stops performed so far
 	zombies  []*w1Inst
 	allInsts []*w1Inst
 	clients  []*w1Client
@@ -334,7 +338,9 @@ func w1Run(t *testing.T, r *verifsim.Run) {
 	// handler pauses: a scheduling device, drawn independently of the faults (value 0: handlers run through)
 	cfg.handlerPause = c.Intn(3, "handler_pause")
 	cfg.chLatency = cfg.handlerPause == 2
-	if cfg.handlerPause != 0 {
+	cfg.rawSender = c.Intn(3, "raw_sender") == 1
+	r.Config["raw_sender"] = cfg.rawSender
+	if cfg.handlerPause != 0 || cfg.rawSender { // a raw request with a rejected row pauses whatever handler_pause says
 		verifhook.SetOnPoint(w.onPoint)
 		defer verifhook.SetOnPoint(nil)
 	}
@@ -369,7 +375,10 @@ func w1Run(t *testing.T, r *verifsim.Run) {
 	}
 	w.insts = make([]*w1Inst, cfg.agents)
 	w.instGen = make([]int, cfg.agents)
-	w.partition = make([][3]bool, cfg.agents)
+	w.partition = make([][3]bool, cfg.agents+2) // the last two: raw senders (never partitioned)
+	if cfg.rawSender {
+		w.startRaws()
+	}
 	w.lastWork = make([]uint32, cfg.agents)
 	for a := 0; a < cfg.agents; a++ {
 		w.startAgent(a, "")
@@ -574,6 +583,7 @@ func (w *w1World) applyWorkload() {
 		w.lastWork[a] = nowUnix
 		w.applySecond(inst, nowUnix)
 	}
+	w.rawWorkload(nowUnix)
 }
 
 // w1Layout: the tags an event of a shared key carries, by tag index ("" = absent). Tags 1 and 4 are
@@ -804,7 +814,7 @@ func (w *w1World) signalNetLocked() {
 func (w *w1World) dropCalls(pick func(call *w1Call) bool, err error) {
 	w.mu.Lock()
 	var calls []*w1Call
-	for _, inst := range w.insts {
+	for _, inst := range append(append([]*w1Inst(nil), w.insts...), w.raws...) {
 		if inst == nil {
 			continue
 		}
@@ -1038,6 +1048,7 @@ func (w *w1World) teardown() {
 			w.killAgent(inst)
 		}
 	}
+	w.stopRaws()
 	for _, rep := range w.reps {
 		if rep.up {
 			w.stopReplica(rep)
